@@ -96,7 +96,7 @@ theorem batchCreate_good (hself : ∀ x, δ x x = 0) (hnn : ∀ x y, 0 ≤ δ x 
             exact hleaves
 
 /-- **`batchCreate_wf`** : for the samples `0 .. N-1` in any order the tree `batch_create` returns is well formed in the
-    sense of `CoverTree.wfTree` — the hypothesis of `cover_query_exact_partial` -/
+    sense of `CoverTree.wfTree` — the hypothesis of `cover_query_exact` -/
 theorem batchCreate_wf' (hself : ∀ x, δ x x = 0) (hnn : ∀ x y, 0 ≤ δ x y) (hpos : ∀ s, 0 ≤ distOfScale s)
     {fuel N : Nat} {points : List Nat} (hpts : points.Perm (List.range N)) {t : CNode K} {ls : Nat}
     (h : batchCreate δ getScale distOfScale fuel points = some (t, ls)) : wfTree δ N t = true := by
